@@ -39,7 +39,7 @@ func (c15) Batches(tier string, seed uint64) []core.Batch {
 
 func (c15) Mandatory(tier string) []string {
 	m := []string{"ar:members-returned", "reader:overlong-SectionReader", "ar:eof", "deb:loaded", "corrupt:magic-first-byte", "corrupt:magic-second-byte", "corrupt:magic-both",
-		"corrupt:truncation", "corrupt:duplicate-member", "corrupt:two-control", "corrupt:two-data", "corrupt:reordered", "corrupt:control-tar-without-control", "corrupt:bare-standard-name", "corrupt:size+1", "corrupt:size-1", "corrupt:random-bytes"}
+		"corrupt:truncation", "corrupt:duplicate-member", "corrupt:two-control", "corrupt:two-data", "corrupt:reordered", "corrupt:control-tar-without-control", "corrupt:bare-standard-name", "corrupt:odd-entry-names-in-control-tar", "corrupt:size+1", "corrupt:size-1", "corrupt:random-bytes"}
 	for _, col := range []string{"name", "mtime", "uid", "gid", "mode", "size"} {
 		m = append(m, "corrupt:column-"+col)
 	}
@@ -381,7 +381,18 @@ func (p c15) RunBatch(t *core.T, b core.Batch) {
 		for i := 0; i < b.N; i++ {
 			_, members := smallDeb(r)
 			tag := ""
-			switch r.Intn(8) {
+			switch r.Intn(9) {
+			case 8: // odd entries in front of ./control inside the control tarball: an empty name, ".", "./", "/", a one-character name
+				m, _ := smallDeb(r)
+				odd := tarEnt{Name: r.Pick([]string{"", ".", "./", "/", "c", "./c", "control/"}), Type: '0', Data: []byte("x"), Mode: 0o644}
+				if strings.HasSuffix(odd.Name, "/") || odd.Name == "." {
+					odd.Type, odd.Data = tar.TypeDir, nil
+				}
+				m.ControlFiles = append([]tarEnt{odd}, m.ControlFiles...)
+				if ms, err := m.members(); err == nil {
+					members = ms
+				}
+				tag = "corrupt:odd-entry-names-in-control-tar"
 			case 6: // a control tarball that is well-formed but holds no control file
 				var ents []tarEnt
 				switch r.Intn(4) {
